@@ -254,7 +254,10 @@ CATS = [('Food', 'Grocery'), ('Food', 'Delivery'), ('Subscriptions', 'Streaming'
 STATIC_TAGS = ['recurring', 'Business', 'LARGE', 'income', 'Transfer', 'needs review', 'q1', 'café', ' padded ', 'ref #1', 'acct # 2']
 DYN_TAGS = ['{field.memo}', '{source}', '{extract("REF:(\\\\d+)")}', '{label}', '{split("-", 0)}', '{field.code}', '{txn.location}',
             '{lowercase(field.memo)}', '{field.nope}', '{ }', '{trim(field.memo)}', '{substring(description, 0, 4)}',
-            '{extract(field.code, "#(\\\\d+)")}', '{extract("Foods #(\\\\d+)")}', '{extract(field.code, "REF:\\\\d+ #(\\\\d+)")}']
+            '{extract(field.code, "#(\\\\d+)")}', '{extract("Foods #(\\\\d+)")}', '{extract(field.code, "REF:\\\\d+ #(\\\\d+)")}',
+            # expressions whose letter case matters (\\S is not \\s, "B" is not "b" for split)
+            '{extract(field.code, "REF:(\\\\S+)")}', '{extract("\\\\D+ (\\\\d+)")}', '{split(field.code, "B", 0)}', '{extract(field.memo, "PROJ:(\\\\S+)")}',
+            '{split(description, "S", 1)}']
 TRANSFORMS = [
     ('field.description', 'regex_replace(field.description, "^SQ \\\\*", "")'),
     ('field.description', 'strip_prefix(field.description, "UBER ")'),
